@@ -387,6 +387,11 @@ func c12ErrorScenario(c *core.Ctx) {
 		// an ordinary error that merely WRAPS an issue somewhere in its chain is still an ordinary error
 		sentinel = fmt.Errorf("tag rejected: %w", &z.ZogIssue{Code: "inner_issue", Path: "some.other.path", Message: "inner"})
 	}
+	// a victim that also has a Catch value: its error is not reported (the catch swallows it), but the chain still has to stop there
+	catching := victim.Kind.IsPrimitive() && c.R.Intn(4) == 0
+	if catching {
+		victim.Mods = append(victim.Mods, spec.Mod{Op: spec.MCatch, Val: victim.Witness})
+	}
 	victim.Posts[which].Name = fmt.Sprintf("fails(%d)", which)
 	victim.Posts[which].Fn = func(ptr any) error {
 		if retIssue {
@@ -448,6 +453,11 @@ func c12ErrorScenario(c *core.Ctx) {
 		if laterCalls > 0 {
 			c.Violation("post-transform-ran-after-error|"+mode.String(), det(map[string]any{"calls_after_the_error_in_the_same_visit": laterCalls}))
 			return
+		}
+		if catching {
+			c.NonTrivial(fpf("err-catching|%s|%s|%d|%d", src, mode, victim.ID, which))
+			c.Count("error_scenarios_on_catching_node", 1)
+			continue
 		}
 		// the first error creates an issue; afterwards HasErrored gates every other post-transform, so exactly one issue exists
 		if len(out.Issues) != 1 {
